@@ -44,6 +44,7 @@ TokClass(ts, rt, x) ==
   IF x >= PTok THEN LET t == TermOfId(ts, x - PTok) IN DeclClass(ts, IF t.k = "string" THEN "val" ELSE "ret", x - PTok)
   ELSE LET e == rt[x - RTok] IN DeclClass(ts, e.rk, e.id)
 
+HasScripts(ts) == \E t \in AllTerms(ts) : t.scr # <<>> \/ t.fscr # <<>>
 HasUnsafeWrapper(ts) == \E t \in AllTerms(ts) : t.k = "unsafe"
 
 \* C05: deleting the envelopes leaves all structure and exactly the declared-safe renderings
@@ -115,7 +116,7 @@ Check == lvl = 1 =>
   /\ Holds("WellFormed", ok => (WellFormed(Out(r)) /\ LineSafe(Out(r))))
   \* restorer discipline: a top-level call ends with no override and clean flags
   /\ Holds("Restored", ok => (r.ov = "none" /\ ~r.erroring /\ ~r.panicking))
-  /\ Holds("C05", (ok /\ Slice \in {"cls", "qcls"}) => C05Holds(c, r))
+  /\ Holds("C05", (ok /\ Slice \in {"cls", "qcls"} /\ ~HasScripts(c.ts)) => C05Holds(c, r))
   /\ Holds("C06", (ok /\ Slice = "wrap") => C06Holds(c, r))
   /\ Holds("C11", (Slice = "panic") => C11Holds(c, r))
   /\ Holds("C15", (ok /\ Slice \in {"errorf", "qerrorf"}) => C15Holds(c, r))
